@@ -141,7 +141,7 @@ func (c *corsCfg) policy(origin string) string {
 }
 
 func originVariants(r *core.Rand, cfg *corsCfg) []string {
-	out := []string{"", "null", "http://evil.com", "http://üñí.example", "*", ".*", " "}
+	out := []string{"", "null", "http://evil.com", "http://üñí.example", "*", ".*", " ", "http://verif.test", "https://verif.test", "verif.test"}
 	entries := append([]string{}, cfg.Domains...)
 	entries = append(entries, cfg.Pred...)
 	entries = append(entries, r.Pick(originPool))
@@ -189,13 +189,14 @@ func fullSig(o *rt.Outcome) string {
 }
 
 type corsPair struct {
-	cfg   *corsCfg
-	t     *rt.Table
-	with  *restful.Container
-	twin  *restful.Container
-	plain *restful.Container // no filters at all (method probing)
-	tap   *predTap
-	cors  restful.CrossOriginResourceSharing
+	wsWith, wsTwin, wsPlain []*restful.WebService
+	cfg                     *corsCfg
+	t                       *rt.Table
+	with                    *restful.Container
+	twin                    *restful.Container
+	plain                   *restful.Container // no filters at all (method probing)
+	tap                     *predTap
+	cors                    restful.CrossOriginResourceSharing
 }
 
 func buildCorsPair(r *core.Rand, router string) *corsPair {
@@ -209,13 +210,14 @@ func buildCorsPair(r *core.Rand, router string) *corsPair {
 		s.Routes[0].Method = "OPTIONS"
 	}
 	bo := rt.DefaultBuild(router)
-	p.with = rt.Build(p.t, bo)
+	bo.Dynamic = true
+	p.with, p.wsWith = rt.BuildWS(p.t, bo)
 	p.cors = p.cfg.build(p.with, p.tap)
 	p.with.Filter(p.cors.Filter)
 	p.with.Filter(rt.SelFilter("after-cors"))
-	p.twin = rt.Build(p.t, bo)
+	p.twin, p.wsTwin = rt.BuildWS(p.t, bo)
 	p.twin.Filter(rt.SelFilter("after-cors"))
-	p.plain = rt.Build(p.t, bo)
+	p.plain, p.wsPlain = rt.BuildWS(p.t, bo)
 	return p
 }
 
@@ -236,7 +238,7 @@ func corsReq(method, path, origin string, acrm, acrh string) rt.Req {
 // c08: CORS headers are granted only to allowed origins, echoing the origin.
 func c08(ctx *core.Ctx) {
 	quietLogs()
-	ctx.Rule("generated CORS configurations (0-4 allowed domains +/- the .* wildcard, optional predicate over a fixed set, cookies, exposed headers, max-age, allowed methods/headers) on generated route tables, both routers; origins per allowed entry: exact, case variants, proper prefix/suffix, superstrings (entry.evil.com, evil-entry, x+entry), port/scheme variants, regex look-alikes (. -> x), trailing dot/slash/space/tab, host only, list 'a,a', null, empty, unicode; requests: route hit, other method, 404, OPTIONS with and without Access-Control-Request-Method. Oracle: reference policy; not allowed / no Origin => no Access-Control-* header and complete response + event log equal to a twin container without the filter; allowed => Allow-Origin at most once and byte-equal to Origin, credentials only if configured. Non-trivial = a request carrying an Origin; distinct by (policy verdict, origin mutation kind, request kind, list size, predicate).")
+	ctx.Rule("generated CORS configurations (0-4 allowed domains +/- the .* wildcard, optional predicate over a fixed set, cookies, exposed headers, max-age, allowed methods/headers) on generated route tables, both routers; origins per allowed entry: exact, case variants, proper prefix/suffix, superstrings (entry.evil.com, evil-entry, x+entry), port/scheme variants, regex look-alikes (. -> x), trailing dot/slash/space/tab, host only, list 'a,a', null, empty, unicode, the request's own Host with either scheme; requests: route hit, other method, 404, OPTIONS with and without Access-Control-Request-Method. Oracle: reference policy; not allowed / no Origin => no Access-Control-* header and complete response + event log equal to a twin container without the filter; allowed => Allow-Origin at most once and byte-equal to Origin, credentials only if configured. Non-trivial = a request carrying an Origin; distinct by (policy verdict, origin mutation kind, request kind, list size, predicate).")
 	ctx.Assume("predicate results are known from the configuration (fixed case-insensitive set) and cross-checked against a tap on the predicate")
 	configs := ctx.N(400, 80000)
 	for ci := 0; ci < configs; ci++ {
@@ -304,8 +306,8 @@ func c08(ctx *core.Ctx) {
 				}
 				p.tap.mu.Unlock()
 				mut := "other"
-				if oi >= 7 {
-					mut = fmt.Sprintf("m%d", (oi-7)%21)
+				if oi >= 10 {
+					mut = fmt.Sprintf("m%d", (oi-10)%21)
 				} else {
 					mut = fmt.Sprintf("fixed%d", oi)
 				}
@@ -439,70 +441,93 @@ func c09(ctx *core.Ctx) {
 		ctx.Case(ci, core.JSON(p.cfg)+" table="+core.JSON(p.t))
 		rr := ctx.Rand(ci, "req")
 		urls := urlsFor(rr, p.t, 12)
-		for _, u := range urls {
-			allowed := p.cfg.Methods
-			computed := false
-			if len(allowed) == 0 {
-				allowed = routable(p.plain, u)
-				computed = true
+		passes := 1
+		if len(p.cfg.Methods) == 0 && ci%2 == 0 {
+			passes = 2 // allowed methods are computed from the routes: they must follow a change of the routes
+		}
+		for pass := 0; pass < passes; pass++ {
+			if pass == 1 {
+				si := rr.Intn(len(p.t.Svcs))
+				svc := &p.t.Svcs[si]
+				if len(svc.Routes) == 0 || p.wsWith[si] == nil {
+					break
+				}
+				nr := svc.Routes[rr.Intn(len(svc.Routes))]
+				nr.ID = 7000 + ci
+				nr.Method = rr.Pick([]string{"GET", "POST", "PUT", "DELETE", "PATCH"})
+				nr.Conds = nil
+				svc.Routes = append(svc.Routes, nr)
+				bo := rt.DefaultBuild(router)
+				for _, ws := range []*restful.WebService{p.wsWith[si], p.wsTwin[si], p.wsPlain[si]} {
+					rt.AddRoute(ws, &svc.Routes[len(svc.Routes)-1], bo)
+				}
+				ctx.Count("route_changes_between_preflight_passes", 1)
 			}
-			for q := 0; q < 6; q++ {
-				acrm := rr.Pick([]string{"GET", "POST", "PUT", "DELETE", "PATCH", "HEAD", "get", "Post", "FOO", "OPTIONS"})
-				if len(allowed) > 0 && rr.Chance(1, 2) {
-					acrm = rr.Pick(allowed)
+			for _, u := range urls {
+				allowed := p.cfg.Methods
+				computed := false
+				if len(allowed) == 0 {
+					allowed = routable(p.plain, u)
+					computed = true
 				}
-				var hs []string
-				for i := 0; i < rr.Intn(5); i++ {
-					hs = append(hs, rr.Pick(reqHeaders))
-				}
-				acrh := strings.Join(hs, rr.Pick([]string{",", ", ", " , "}))
-				req := corsReq("OPTIONS", u, origin, acrm, acrh)
-				out := rt.Run(p.with, rt.Dispatch, &req)
-				ctx.Eval(1)
-				doc := map[string]interface{}{"config": p.cfg, "table": p.t, "request": req, "allowed_methods": allowed, "computed": computed, "router": router,
-					"access_control_headers": acHeaders(out.Rec.Hdr()), "status": out.Status}
-				if out.Panicked {
-					ctx.Violation(ci, "c09:panic", "panic: "+out.Panic, doc)
-					continue
-				}
-				cls, msg := judgePreflight(p.cfg, allowed, acrm, acrh, out)
-				shape := fmt.Sprintf("h=%d", len(hs))
-				granted := len(acHeaders(out.Rec.Hdr())) > 0
-				ctx.Sig(fmt.Sprintf("preflight|granted=%v|computed=%v|%s|listed=%v", granted, computed, shape, exactIn(acrm, allowed)))
-				ctx.Count("preflights_judged", 1)
-				if granted {
-					ctx.Count("preflights_granted", 1)
-				}
-				if cls != "" {
-					ctx.Violation(ci, fmt.Sprintf("c09:%s:computed=%v", cls, computed), fmt.Sprintf("OPTIONS %q ACRM=%q ACRH=%q: %s", u, acrm, acrh, msg), doc)
-				}
-			}
-			// actual requests from the allowed origin
-			for mi, m := range []string{"GET", "POST", "OPTIONS", "GET", "POST", "PUT"} {
-				req := corsReq(m, u, origin, "", "")
-				if mi >= 3 {
-					// only OPTIONS requests are preflights, whatever headers another method carries
-					req = corsReq(m, u, origin, rr.Pick([]string{"GET", "POST", "PUT"}), rr.Pick([]string{"", "Content-Type"}))
-				}
-				out := rt.Run(p.with, rt.Dispatch, &req)
-				tw := rt.Run(p.twin, rt.Dispatch, &req)
-				ctx.Eval(2)
-				doc := map[string]interface{}{"config": p.cfg, "table": p.t, "request": req, "router": router, "access_control_headers": acHeaders(out.Rec.Hdr())}
-				if out.Sig() != tw.Sig() || len(out.Obs.Sels) != len(tw.Obs.Sels) || out.Rec.Body.String() != tw.Rec.Body.String() {
-					ctx.Violation(ci, "c09:actual-not-continued", fmt.Sprintf("%s %q from an allowed origin: %s (later filters %d), twin %s (later filters %d)", m, u, out.Sig(), len(out.Obs.Sels), tw.Sig(), len(tw.Obs.Sels)), doc)
-					continue
-				}
-				ac := acHeaders(out.Rec.Hdr())
-				want := map[string]bool{"Access-Control-Allow-Origin": true, "Access-Control-Allow-Credentials": p.cfg.Cookies,
-					"Access-Control-Expose-Headers": len(p.cfg.Expose) > 0, "Access-Control-Max-Age": p.cfg.MaxAge > 0}
-				for k, w := range want {
-					n := len(ac[k])
-					if (w && n != 1) || (!w && n != 0) {
-						ctx.Violation(ci, "c09:actual-headers:"+k, fmt.Sprintf("%s %q from an allowed origin: %s appears %d times (configured: %v)", m, u, k, n, w), doc)
+				for q := 0; q < 6; q++ {
+					acrm := rr.Pick([]string{"GET", "POST", "PUT", "DELETE", "PATCH", "HEAD", "get", "Post", "FOO", "OPTIONS"})
+					if len(allowed) > 0 && rr.Chance(1, 2) {
+						acrm = rr.Pick(allowed)
+					}
+					var hs []string
+					for i := 0; i < rr.Intn(5); i++ {
+						hs = append(hs, rr.Pick(reqHeaders))
+					}
+					acrh := strings.Join(hs, rr.Pick([]string{",", ", ", " , "}))
+					req := corsReq("OPTIONS", u, origin, acrm, acrh)
+					out := rt.Run(p.with, rt.Dispatch, &req)
+					ctx.Eval(1)
+					doc := map[string]interface{}{"config": p.cfg, "table": p.t, "request": req, "allowed_methods": allowed, "computed": computed, "router": router,
+						"access_control_headers": acHeaders(out.Rec.Hdr()), "status": out.Status}
+					if out.Panicked {
+						ctx.Violation(ci, "c09:panic", "panic: "+out.Panic, doc)
+						continue
+					}
+					cls, msg := judgePreflight(p.cfg, allowed, acrm, acrh, out)
+					shape := fmt.Sprintf("h=%d", len(hs))
+					granted := len(acHeaders(out.Rec.Hdr())) > 0
+					ctx.Sig(fmt.Sprintf("preflight|granted=%v|computed=%v|%s|listed=%v|pass=%d", granted, computed, shape, exactIn(acrm, allowed), pass))
+					ctx.Count("preflights_judged", 1)
+					if granted {
+						ctx.Count("preflights_granted", 1)
+					}
+					if cls != "" {
+						ctx.Violation(ci, fmt.Sprintf("c09:%s:computed=%v", cls, computed), fmt.Sprintf("OPTIONS %q ACRM=%q ACRH=%q: %s", u, acrm, acrh, msg), doc)
 					}
 				}
-				ctx.Sig(fmt.Sprintf("actual|%s|%d", m, out.Status))
-				ctx.Count("actual_requests_judged", 1)
+				// actual requests from the allowed origin
+				for mi, m := range []string{"GET", "POST", "OPTIONS", "GET", "POST", "PUT"} {
+					req := corsReq(m, u, origin, "", "")
+					if mi >= 3 {
+						// only OPTIONS requests are preflights, whatever headers another method carries
+						req = corsReq(m, u, origin, rr.Pick([]string{"GET", "POST", "PUT"}), rr.Pick([]string{"", "Content-Type"}))
+					}
+					out := rt.Run(p.with, rt.Dispatch, &req)
+					tw := rt.Run(p.twin, rt.Dispatch, &req)
+					ctx.Eval(2)
+					doc := map[string]interface{}{"config": p.cfg, "table": p.t, "request": req, "router": router, "access_control_headers": acHeaders(out.Rec.Hdr())}
+					if out.Sig() != tw.Sig() || len(out.Obs.Sels) != len(tw.Obs.Sels) || out.Rec.Body.String() != tw.Rec.Body.String() {
+						ctx.Violation(ci, "c09:actual-not-continued", fmt.Sprintf("%s %q from an allowed origin: %s (later filters %d), twin %s (later filters %d)", m, u, out.Sig(), len(out.Obs.Sels), tw.Sig(), len(tw.Obs.Sels)), doc)
+						continue
+					}
+					ac := acHeaders(out.Rec.Hdr())
+					want := map[string]bool{"Access-Control-Allow-Origin": true, "Access-Control-Allow-Credentials": p.cfg.Cookies,
+						"Access-Control-Expose-Headers": len(p.cfg.Expose) > 0, "Access-Control-Max-Age": p.cfg.MaxAge > 0}
+					for k, w := range want {
+						n := len(ac[k])
+						if (w && n != 1) || (!w && n != 0) {
+							ctx.Violation(ci, "c09:actual-headers:"+k, fmt.Sprintf("%s %q from an allowed origin: %s appears %d times (configured: %v)", m, u, k, n, w), doc)
+						}
+					}
+					ctx.Sig(fmt.Sprintf("actual|%s|%d", m, out.Status))
+					ctx.Count("actual_requests_judged", 1)
+				}
 			}
 		}
 		// history: ONE filter value, preflights alternating over URLs with different routable sets
@@ -568,7 +593,8 @@ func c09(ctx *core.Ctx) {
 
 func rebuildCorsPair(p *corsPair, router string) *corsPair {
 	bo := rt.DefaultBuild(router)
-	p.with = rt.Build(p.t, bo)
+	bo.Dynamic = true
+	p.with, p.wsWith = rt.BuildWS(p.t, bo)
 	p.cors = p.cfg.build(p.with, p.tap)
 	p.with.Filter(p.cors.Filter)
 	p.with.Filter(rt.SelFilter("after-cors"))
